@@ -93,6 +93,13 @@ func (m MetavarMatcher) Match(got reflect.Value, d data.Data, r Region) (data.Da
 		return d, false
 	}
 
+	// Nor does implementing ast.Expr make an expression: the "key: value"
+	// of a composite literal and the "..." of [...]T and ...T do.
+	switch got.Interface().(type) {
+	case *ast.KeyValueExpr, *ast.Ellipsis:
+		return d, false
+	}
+
 	key := metavarKey(m.Name)
 
 	var md metavarData
